@@ -300,6 +300,21 @@ func langCheck(prop, tier string) int {
 		run.Set("binary_fmt_rewrites_checked", loaded)
 	}
 	if prop == "C08" {
+		// supplementary free-running pass under the race detector (never the deciding step)
+		if f := os.Getenv("VERIF_SUPP"); f != "" {
+			var ro struct {
+				Runs  int64          `json:"hash_calls"`
+				Procs []int          `json:"gomaxprocs"`
+				Viol  []ev.Violation `json:"viol"`
+			}
+			if data, err := os.ReadFile(f); err == nil && json.Unmarshal(data, &ro) == nil {
+				for _, v := range ro.Viol {
+					run.Report(v)
+				}
+				run.Set("supplementary_race_pass", map[string]any{"parses_under_race_detector": ro.Runs, "gomaxprocs": ro.Procs,
+					"what": "the unmodified lexer and parser, free-running, built with -race: every string of <=3 alphabet symbols, every single edit of three programs, every (parser error, lexer error) pair on adjacent lines alone and below 3000 lines. Supplementary only: it can add alarms backed by a race-detector report, it never decides the property"})
+			}
+		}
 		if f := os.Getenv("VERIF_C08_SCHED"); f != "" {
 			var sp struct {
 				Inputs   int64          `json:"inputs"`
